@@ -1,4 +1,7 @@
 import PgBifrost.Model.Stages
+import PgBifrost.Proofs.Backoff
+import PgBifrost.Gen.Retry
+import PgBifrost.Gen.Wiring
 /-!
 # C17 — fail-stop (property theorems; partial)
 
@@ -178,6 +181,16 @@ theorem stages_complete : stages.map (·.name) =
      "s3_transporter", "rabbitmq_transporter", "kafka_transporter", "stdout_transporter", "aggregator_ingest",
      "aggregator_report", "runner"] := by decide
 
+/-- the statistics reporters (datadog, stdout) also defer `shutdown` first and `shutdown` calls `CancelFunc`:
+when one returns (its input channel closed, or the signal observed) the signal is raised. They do not
+`recover()`: a panic inside a reporter is not contained and takes the process down (which stops it, too). -/
+theorem reporters_cancel : ∀ f ∈ reporterStages, f.defersShutdownFirst = true ∧ f.shutdownCancels = true := by decide
+
+theorem reporter_return_cancels (s : String) (hs : s ∈ reporterStages.map (·.name)) :
+    (run (init (stages ++ reporterStages)) [.returns s]).cancelled = true := by
+  simp only [reporterStages, List.map_cons, List.map_nil, List.mem_cons, List.not_mem_nil, or_false] at hs
+  rcases hs with rfl | rfl <;> decide
+
 /-- `main` blocks on the shared context and returns afterwards; the handler is `context.WithCancel` -/
 theorem main_waits_then_exits : mainWaitsOnCtx = true ∧ handlerIsWithCancel = true := by decide
 
@@ -194,5 +207,113 @@ example : (run (init stages) [.panics "kafka_transporter", .observe "client"]).c
     isRunning (run (init stages) [.panics "kafka_transporter", .observe "client"]) "client" = false := by decide
 /-- and a stage whose shutdown did not cancel would break it -/
 example : (run (init [⟨"x", true, false, true, true, false⟩]) [.returns "x"]).cancelled = false := by decide
+
+/-! ## "a sink that keeps failing past its retry budget" — the retry policies actually give up
+
+The stages' fail-stop machinery above only runs once a worker RETURNS. For the sinks with a retry budget
+(Kinesis, S3, RabbitMQ: 5 minutes; the PostgreSQL connection: 20 s) the worker returns when
+`backoff.Retry` gives up, and that is decided by the library from the policy value the factory builds.
+`Model/Backoff.lean` models that decision; the policy literals are regenerated from the source on every run
+(`Gen/Retry.lean`), and the harness component `retrypolicy` runs the real library on the same literals. -/
+section retry
+open PgBifrost.Backoff PgBifrost.Gen.Retry
+
+/-- **A policy with a budget and `Stop: backoff.Stop` gives up.** For every budget `m ≠ 0`, every clock that
+advances at least by the sleeps the loop performs and every sequence of drawn intervals of at least `minI`:
+once enough calls have failed for the sleeps alone to exceed the budget, the loop has given up — after at most
+`m / minI + 1` calls of the operation (stated without division: `(k - 1) * minI ≤ m`). -/
+theorem retry_budget_gives_up (m minI : Nat) (hm : m ≠ 0) (obs : List Obs)
+    (hadv : Advances minI 0 obs) (hlen : m < obs.length * minI) :
+    ∃ k, retryFailing ⟨m, stopConst⟩ obs 0 = some k ∧ 1 ≤ k ∧ k ≤ obs.length ∧ (k - 1) * minI ≤ m := by
+  obtain ⟨k, hk, h1, h2, h3⟩ :=
+    retryFailing_gives_up ⟨m, stopConst⟩ rfl hm minI obs 0 0 hadv (Nat.zero_le _) (by simpa using hlen)
+  exact ⟨k, hk, by omega, by omega, by simpa using h3⟩
+
+/-- **The defect repaired by "fix: retry policies never gave up"** (a struct literal without the `Stop` field:
+zero value): for EVERY budget and EVERY behaviour of the clock the loop never gives up, and once the budget
+is exceeded it retries with a sleep of 0 ns. -/
+theorem retry_unset_stop_never_gives_up (m : Nat) (obs : List Obs) (c : Nat) :
+    retryFailing ⟨m, 0⟩ obs c = none :=
+  retryFailing_none_of_field ⟨m, 0⟩ (by simp [stopConst]) obs c
+
+theorem retry_unset_stop_spins (m : Nat) (hm : m ≠ 0) (e n : Nat) (hover : m < e + n) :
+    sleepAfter ⟨m, 0⟩ (e, n) = some 0 :=
+  sleep_after_budget ⟨m, 0⟩ (by simp [stopConst]) hm e n hover
+
+/-- the value of the `Stop` field as far as its source text determines it -/
+def stopValue : String → Option Int
+  | "backoff.Stop" => some stopConst
+  | "" => some 0
+  | _ => none
+
+/-- **Every retry policy of pg-bifrost that has a budget sets `Stop: backoff.Stop`** (about the table
+regenerated from the source on every run; removing the field from one of the factories breaks this). -/
+theorem retry_policies_give_up :
+    ∀ f ∈ policies, f.maxElapsed ≠ "" → stopValue f.stop = some stopConst := by decide
+
+/-- the table is the five literals the models know: the PostgreSQL connection, the three sink factories with a
+budget, and RabbitMQ's connection manager, which has no budget by design (it retries until shutdown) -/
+theorem retry_policies_complete :
+    policies.map (fun f => (f.file, f.func, f.maxElapsed != "")) =
+      [("replication/client/conn/conn.go", "NewConnWithRetry", true),
+       ("transport/transporters/kinesis/factory.go", "New", true),
+       ("transport/transporters/rabbitmq/factory.go", "New", true),
+       ("transport/transporters/rabbitmq/transporter/connection.go", "NewConnectionManager", false),
+       ("transport/transporters/s3/factory.go", "New", true)] := by decide
+
+/-- instantiated: for each of pg-bifrost's budgeted policies, whatever number of nanoseconds its
+`MaxElapsedTime` expression denotes (`m ≠ 0`), a sink that keeps failing makes the retry loop give up -/
+theorem pg_bifrost_retry_gives_up (f : PolicyFact) (hf : f ∈ policies) (hb : f.maxElapsed ≠ "")
+    (m minI : Nat) (hm : m ≠ 0) (obs : List Obs) (hadv : Advances minI 0 obs) (hlen : m < obs.length * minI) :
+    ∃ s, stopValue f.stop = some s ∧ ∃ k, retryFailing ⟨m, s⟩ obs 0 = some k ∧ k ≤ obs.length :=
+  ⟨stopConst, retry_policies_give_up f hf hb, by
+    obtain ⟨k, hk, _, h2, _⟩ := retry_budget_gives_up m minI hm obs hadv hlen
+    exact ⟨k, hk, h2⟩⟩
+
+/-- non-vacuity: a 3-second budget, 1-second intervals, a clock that advances exactly by the sleeps -/
+example : Advances 1000000000 0 [(0, 1000000000), (1000000000, 1000000000), (2000000000, 1000000000), (3000000000, 1000000000)] ∧
+    retryFailing ⟨3000000000, stopConst⟩ [(0, 1000000000), (1000000000, 1000000000), (2000000000, 1000000000), (3000000000, 1000000000)] 0 = some 4 ∧
+    retryFailing ⟨3000000000, 0⟩ [(0, 1000000000), (1000000000, 1000000000), (2000000000, 1000000000), (3000000000, 1000000000)] 0 = none := by
+  refine ⟨by simp [Advances], by decide, by decide⟩
+
+end retry
+
+/-! ## one termination signal for the whole process
+
+`stage_death_cancels` says that a dying stage cancels the context of ITS shutdown handler. That this is the
+process-wide signal `main` waits on rests on the wiring: there is exactly one handler value (made in `main`,
+by `shutdown.NewShutdownHandler`), nobody rewrites its fields or swaps it, `app.New` hands it to every stage
+constructor and `Runner.Start` launches every stage. All of it regenerated from the source on every run. -/
+section wiring
+open PgBifrost.Gen.Wiring
+
+/-- **exactly one shutdown handler**: the only place a `ShutdownHandler` is built is
+`shutdown.NewShutdownHandler`, called once, by `main`; no function assigns to a `.CancelFunc` /
+`.TerminateCtx` field (or takes its address), and no constructor replaces its `shutdownHandler` parameter.
+(A stage given a handler of its own — e.g. a derived context with its own cancel function — could die
+without the process noticing.) -/
+theorem single_shutdown_handler :
+    handlerCreations = ["main/main.go:runReplicate:call", "shutdown/shutdown.go:NewShutdownHandler:literal"] ∧
+    handlerFieldWrites = [] ∧ handlerParamReassigned = [] := by decide
+
+/-- `app.New` passes that handler, as first argument, to every stage it constructs, and keeps it for itself -/
+theorem runner_hands_the_handler_to_every_stage :
+    (∀ c ∈ runnerCalls, c.2.head? = some "shutdownHandler") ∧
+    runnerCalls.map (·.1) = ["client.New", "filter.New", "partitioner.New", "marshaller.New", "manager.New",
+      "progress.New", "aggregator.New", "factory.New"] ∧
+    runnerFields.head? = some "shutdownHandler" := by decide
+
+/-- `Runner.Start` launches every stage it was given (each field of the Runner is started exactly once) and
+then blocks on the shared context -/
+theorem runner_starts_every_stage :
+    runnerGo = ["r.progressTracker.Start(time.Millisecond * 5000)", "r.statsAggregator.Start()",
+      "r.statsReporter.Start()", "r.transportManager.Start()", "r.marshallerInstance.Start()",
+      "r.partitionerInstance.Start()", "r.filterInstance.Start()",
+      "r.replicationClient.Start(r.progressTracker.OutputChan)"] ∧
+    runnerFields = ["shutdownHandler", "statsChan", "&replicationClient", "&filterInstance", "&partitionerInstance",
+      "&marshallerInstance", "&transportManager", "&statsAggregator", "&progressTracker", "statsReporter"] ∧
+    runnerWaitsOnCtx = true := by decide
+
+end wiring
 
 end PgBifrost.Props.C17
